@@ -102,15 +102,47 @@ def _loop_aliases(fnode: ast.AST, other: str):
         for (tgt, it) in gens:
             if isinstance(it, ast.Call) and dotted_name(it.func) == "zip" and isinstance(tgt, (ast.Tuple, ast.List)):
                 for pos, t in enumerate(tgt.elts):
-                    if isinstance(t, ast.Name) and pos < len(it.args):
-                        d = dotted_name(it.args[pos])
-                        if d and d.count(".") == 1:
-                            base, f = d.split(".")
+                    if pos >= len(it.args):
+                        continue
+                    a = it.args[pos]
+                    # zip(self.f.items(), other.f.items()): the items / keys / values of a field are the field's content
+                    if isinstance(a, ast.Call) and isinstance(a.func, ast.Attribute) and a.func.attr in ("items", "keys", "values") and not a.args:
+                        a = a.func.value
+                    d = dotted_name(a)
+                    if d and d.count(".") == 1:
+                        base, f = d.split(".")
+                        # a nested target ((k, v), ...) names parts of the same element
+                        for nm in [x.id for x in ast.walk(t) if isinstance(x, ast.Name)]:
                             if base == "self":
-                                al_self.setdefault(t.id, set()).add(f)
+                                al_self.setdefault(nm, set()).add(f)
                             elif base == other:
-                                al_other.setdefault(t.id, set()).add(f)
+                                al_other.setdefault(nm, set()).add(f)
     return al_self, al_other, literal_loops
+
+
+_HELPER_CACHE: Dict[int, Set[str]] = {}
+
+
+def _comparison_helpers(module) -> Set[str]:
+    """module-level functions of two parameters that return a comparison of (something of) the first with (something of) the second"""
+    key = id(module)
+    if key not in _HELPER_CACHE:
+        out = set()
+        for name, f in getattr(module, "functions", {}).items():
+            ps = [a.arg for a in f.node.args.args]
+            if len(ps) != 2:
+                continue
+            rets = [r.value for r in ast.walk(f.node) if isinstance(r, ast.Return) and r.value is not None]
+            ok = bool(rets)
+            for rv in rets:
+                cmps = [c for c in ast.walk(rv) if isinstance(c, ast.Compare) and len(c.ops) == 1 and isinstance(c.ops[0], ast.Eq)]
+                if not any(ps[0] in {x.id for x in ast.walk(c.left) if isinstance(x, ast.Name)} and ps[1] in {x.id for x in ast.walk(c.comparators[0]) if isinstance(x, ast.Name)}
+                           for c in cmps):
+                    ok = False
+            if ok:
+                out.add(name)
+        _HELPER_CACHE[key] = out
+    return _HELPER_CACHE[key]
 
 
 def _examined(expr: ast.AST, other: str, cls: ClassInfo, al_self=None, al_other=None) -> Tuple[Set[str], Set[str], List[str]]:
@@ -148,6 +180,8 @@ def _examined(expr: ast.AST, other: str, cls: ClassInfo, al_self=None, al_other=
         if isinstance(n, ast.Compare) and any(isinstance(o, (ast.Eq, ast.NotEq)) for o in n.ops):
             joined = n
         elif isinstance(n, ast.Call) and isinstance(n.func, ast.Attribute) and n.func.attr in ("is_equal", "__eq__", "__ne__", "equals", "same_table_description_"):
+            joined = n
+        elif isinstance(n, ast.Call) and isinstance(n.func, ast.Name) and n.func.id in _comparison_helpers(cls.module) and len(n.args) == 2:
             joined = n
         if joined is not None:
             compared |= (fields("self", joined) & fields(other, joined))
@@ -385,11 +419,69 @@ def check_overloaded_eq(res, cls: ClassInfo, m: FuncInfo):
     return tv, n_checked
 
 
+def _s4_literal_equality(program, res):
+    """Python's == conflates literals that behave differently in a pipeline (1 == 1.0 == True, 0.0 == -0.0) and is not reflexive on nan.
+    The is_equal methods of the literal-holding terms must not decide by a bare ==/!= on the held values."""
+    n = 0
+    for cname in ("Value", "ListTerm", "DictTerm"):
+        m = program.method("expr_rep", cname, "is_equal", inherited=False)
+        res.analysed(m)
+        other = [p for p in m.params() if p != "self"][0]
+        bare = []
+        for c in ast.walk(m.node):
+            if isinstance(c, ast.Compare) and len(c.ops) == 1 and isinstance(c.ops[0], (ast.Eq, ast.NotEq)):
+                sides = [unparse(c.left), unparse(c.comparators[0])]
+                if any(sd.startswith("len(") or sd.startswith("type(") or "__repr__" in sd or sd.startswith("repr(") for sd in sides):
+                    continue
+                # values of the two terms (directly, or the loop variables of a zip over them)
+                zipped = {t.id for f in ast.walk(m.node) if isinstance(f, (ast.For, ast.comprehension)) and f"{other}.value" in unparse(f.iter)
+                          for t in ast.walk(f.target) if isinstance(t, ast.Name)}
+                if any(sd in ("self.value", f"{other}.value") or sd in zipped for sd in sides):
+                    bare.append(c)
+        n += 1
+        if bare:
+            res.fail_at("C11-S4", m, f"literal-compared-with-python-eq:{cname}",
+                        f"{cname}.is_equal decides with `{unparse(bare[0])}`: 1, 1.0 and True compare equal (i / 2 vs i / 2.0 give other SQL and other SQLite results; "
+                        f"mapv int vs float values other Pandas dtypes), 0.0 equals -0.0 (1.0 / 0.0 vs 1.0 / -0.0), and a nan constant is not equal to itself, so "
+                        f"`ops == ops` is False for extend({{'y': nan}})", bare[0])
+        else:
+            res.ok("C11-S4", f"{cname}.is_equal does not decide by a bare ==/!= on the held literals")
+    if n != 3:
+        raise AnalysisError("C11-S4: literal-holding term classes not found")
+    # the one numeric option compared with == in _equiv_nodes: order_rows(limit=...)
+    oi = program.method("view_representations", "OrderRowsNode", "__init__", inherited=False)
+    res.analysed(oi)
+    stores = [st for st in ast.walk(oi.node) if isinstance(st, ast.Assign) and unparse(st.targets[0]) == "self.limit"]
+    if not stores:
+        raise AnalysisError("OrderRowsNode.__init__: self.limit is not assigned")
+
+    def _int_typed(v) -> bool:
+        if isinstance(v, ast.Call) and dotted_name(v.func) == "int":
+            return True
+        if isinstance(v, ast.Name):
+            defs = [a for a in ast.walk(oi.node) if isinstance(a, ast.Assign) and unparse(a.targets[0]) == v.id]
+            checked = any(isinstance(c, ast.Call) and dotted_name(c.func) == "isinstance" and len(c.args) == 2 and unparse(c.args[0]) == v.id and "int" in unparse(c.args[1])
+                          and "float" not in unparse(c.args[1]) for c in ast.walk(oi.node))
+            return checked or (bool(defs) and all(_int_typed(a.value) for a in defs))
+        if isinstance(v, ast.IfExp):
+            return all(_int_typed(x) or (isinstance(x, ast.Constant) and x.value is None) for x in (v.body, v.orelse))
+        return False
+
+    if all(_int_typed(st.value) for st in stores):
+        res.ok("C11-S4", "OrderRowsNode stores limit as an int (or None)")
+    else:
+        res.fail_at("C11-S4", oi, "limit-stored-as-given",
+                    "OrderRowsNode stores `limit` as given and _equiv_nodes compares it with ==: order_rows(['x'], limit=2) equals order_rows(['x'], limit=2.0), "
+                    "but the second emits `LIMIT 2.0` and raises TypeError on Pandas", stores[0])
+
+
 def run(program, res, tier):
     res.rule("C11-S1", "every semantic field is examined on every path on which an equality method accepts")
     res.rule("C11-S2", "comparisons pair the same field on both sides; type test two-sided")
     res.rule("C11-S3", "no Python ==/!=/in over a field holding Terms inside an equality method")
     res.assumptions.append("derived/advisory field tables in sa/nodes.py and EQ_TARGETS in sa/rules/c11.py (one reason per row)")
+    res.rule("C11-S4", "literal equality distinguishes what prints differently (type and repr), and is reflexive")
+    _s4_literal_equality(program, res)
     model = NodeModel(program)
     for (kn, f, why) in model.confirm_derived():
         res.fail("C11-S1", f"view_representations:{kn}.__init__", f"derived:{f}", why,
